@@ -11,6 +11,7 @@ property text / plugin documentation: `expect` is
 """
 import itertools, json, os, re, shutil, linecache, logging
 import common as C
+import metamorph
 
 LEVEL = "proof"
 
@@ -224,6 +225,11 @@ def gen_templates(rng, thorough):
     for imp, callee, kind in spellings("jinja2.Environment"):
         for args, exp in auto:
             out.append(Case("B701", f"{imp}\nenv = {callee}({args})\n", exp, f"b701:{kind}:" + ("safe" if exp is None else "open" if exp == "?" else "unsafe")))
+    # Environment reached through its defining submodule is the same class (seeded change C17-m8 only recognised the top-level spelling)
+    for imp, callee, kind in spellings("jinja2.environment.Environment") + [("import jinja2.environment", "jinja2.environment.Environment", "import-submodule"),
+                                                                           ("import jinja2.environment as je_", "je_.Environment", "import-submodule-as")]:
+        for args, exp in [a for a in auto if a[1] in ((H, H), None, (H, M))][: (None if thorough else 8)]:
+            out.append(Case("B701", f"{imp}\nenv = {callee}({args})\n", exp, f"b701:submodule-{kind}:" + ("safe" if exp is None else "unsafe")))
     out.append(Case("B701", "env = Environment(autoescape=False)\n", None, "b701:safe:no-import"))
     out.append(Case("B701", "import jinja2\nt = jinja2.Template(src)\njinja2.environment(autoescape=False)\n", None, "b701:safe:other-callee"))
     out.append(Case("B701", "from jinja2 import Environment\nenv = Environment\n", None, "b701:safe:not-a-call"))
@@ -830,7 +836,7 @@ def sql_strings(rng, n):
     return out
 
 
-def run(res, ctx):
+def _run_main(res, ctx):
     thorough = res.tier == "thorough"
     rng = C.rng_for(res.seed, "C17")
     # translate.run() (called by the build step) ends with logging.disable(CRITICAL); internal errors of
@@ -953,3 +959,9 @@ def run(res, ctx):
     res.extra["programs"] = len(cases)
     res.extra["crash_shapes_seen"] = {k: v for k, v in sorted(crash_shapes.items())}
     res.extra["modelled_ids"] = TARGETS
+
+
+def run(res, ctx):
+    _run_main(res, ctx)
+    # the neighbourhood of every construct of bandit's example files (harness/metamorph.py): model vs implementation on this family's ids
+    metamorph.family(res, ctx, C, set(TARGETS), 900, 5000)
